@@ -5,4 +5,5 @@ export CARGO_NET_OFFLINE=true
 set -e
 (cd symx && CARGO_TARGET_DIR=/verif/.build/symx RUSTFLAGS="--cfg bpp_verif" cargo build --quiet)
 (cd replay && CARGO_TARGET_DIR=/verif/.build/replay RUSTFLAGS="" cargo build --quiet)
+(cd kani && RUSTFLAGS="--cfg bpp_verif" timeout 900 cargo kani -Z stubbing --target-dir /verif/.build/kani --only-codegen >/dev/null 2>&1 || true)
 echo setup-ok
